@@ -5,6 +5,7 @@ positivity / finiteness by the sign domain (divisors >= 1, value > 0); unpolaris
 DCS_KN = Thomson-like expression in the Compton energy ratio; E -> 0 gives Thomson; ComptonEnergy closed form,
 monotone in cos(theta), end points.
 NOT decided: CS_KN = solid-angle integral of DCS_KN, and 'never exceeds Thomson' (an integral and a real inequality)."""
+import re
 from fractions import Fraction
 
 from xvlib.core import Check
@@ -22,8 +23,9 @@ def run(prog, tier):
                 'non-vanishing divisors, and the identities between the functions by substitution (azimuthal average, Compton '
                 'energy ratio form, low-energy limit, closed form and monotonicity of the scattered energy).',
                 ['clang front end', 'E1 path enumeration with structural interval propagation', 'E2 exact rational normal forms'],
-                ['NOT decided: CS_KN equals the solid-angle integral of DCS_KN, and Klein-Nishina never exceeds Thomson '
-                 '(integral / real inequality): a coefficient error in CS_KN is not detected by this check',
+                ['the two remaining clauses (CS_KN = solid-angle integral of DCS_KN; Klein-Nishina never exceeds Thomson) are decided by '
+                 'exact computer algebra on the same normal forms with the constants kept symbolic (tools/cas_kn.py, sympy): symbolic '
+                 'integration of a rational function of cos(theta), and a non-negative-coefficient certificate after u = (1-x)/(1+x)',
                  'rounding, cancellation at very low energy'])
     R = {}
     notes = {}
@@ -215,4 +217,53 @@ def run(prog, tier):
     fpk = R['DCSP_KN'][0]
     chk.decide(limp.equals(pthoms), 'low-energy-limit', fpk['unit'], 'DCSP_KN', 'E->0', '%s:%d' % (fpk['rel'], fpk['ln']),
                'DCSP_KN at E = 0 must reduce to DCSP_Thoms; found %s' % limp.canon()[:200], why='reduces to polarised Thomson')
+    kn_total_and_bound(prog, chk)
     return chk
+
+
+def kn_total_and_bound(prog, chk):
+    """CS_KN(E) = Integral of DCS_KN over the sphere, and DCS_KN <= DCS_Thoms: exact algebra (no numerics) on the normal forms
+    with PI, RE2, MEC2 kept as symbols."""
+    import json
+    import os
+    import subprocess
+    from xvlib.absint import Interp
+    S = 'src/scattering.c'
+    forms = {}
+    for key, name in (('kn', 'DCS_KN'), ('thoms', 'DCS_Thoms'), ('total', 'CS_KN')):
+        f = prog.func(name, unit=S)
+        it = Interp(prog, f)
+        it.keep_macros = True
+        vals = [p for p in it.run() if p.ret is not None and not it.is_zero(p.ret, p)]
+        if len(vals) != 1:
+            chk.inconclusive('kn-total-is-integral', name, 'expected one value path, found %d' % len(vals))
+            return
+        r = vals[0].ret
+        # parameter names -> E, theta
+        ren = {f['params'][0]['name']: 'E'} if name != 'DCS_Thoms' else {}
+        th = f['params'][1]['name'] if name == 'DCS_KN' else (f['params'][0]['name'] if name == 'DCS_Thoms' else None)
+        txt = r.canon()
+        for a, b in ren.items():
+            txt = re.sub(r'\b%s\b' % re.escape(a), b, txt)
+        if th and th != 'theta':
+            txt = txt.replace('cos(%s)' % th, 'cos(theta)')
+        forms[key] = txt
+    fk = prog.func('CS_KN', unit=S)
+    loc = '%s:%d' % (fk['rel'], fk['ln'])
+    helper = os.path.join(os.path.dirname(os.path.dirname(os.path.abspath(__file__))), 'tools', 'cas_kn.py')
+    try:
+        r = subprocess.run(['python3-vt', helper], input=json.dumps(forms).encode(), stdout=subprocess.PIPE, stderr=subprocess.PIPE, timeout=300)
+        out = json.loads(r.stdout.decode())
+    except Exception as ex:
+        chk.inconclusive('kn-total-is-integral', 'CS_KN', 'computer algebra helper failed: %s' % ex)
+        return
+    if 'error' in out:
+        chk.inconclusive('kn-total-is-integral', 'CS_KN', 'normal forms outside the decidable class: %s' % out['error'])
+        return
+    chk.decide(out.get('integral') is True, 'kn-total-is-integral', S, 'CS_KN', 'solid-angle-integral', loc,
+               'CS_KN(E) is not 2 pi times the integral of DCS_KN(E, theta) sin(theta) over [0, pi]: integral - CS_KN = %s' % out.get('difference'),
+               why='2*PI*Integral(DCS_KN du, u=-1..1) - CS_KN simplifies to 0')
+    fd = prog.func('DCS_KN', unit=S)
+    chk.decide(out.get('bounded') is True, 'kn-below-thomson', S, 'DCS_KN', 'never-exceeds-Thomson', '%s:%d' % (fd['rel'], fd['ln']),
+               'DCS_Thoms - DCS_KN is not certified non-negative for E > 0 and all angles: %s' % out.get('witness'),
+               why=out.get('witness', ''))
